@@ -1,4 +1,5 @@
 import ast
+import copy
 from typing import Any, Dict, List, Optional, Tuple
 
 from func_adl.ast.func_adl_ast_utils import FuncADLNodeTransformer
@@ -68,18 +69,38 @@ def remove_empty_metadata(a: ast.AST) -> ast.AST:
         ast.AST: The cleaned up AST.
     """
 
-    class _cleaner(ast.NodeTransformer):
-        def visit_Call(self, node: ast.Call):
-            n = self.generic_visit(node)
-            assert isinstance(n, ast.Call)
-            if isinstance(n.func, ast.Name) and n.func.id == "MetaData":
-                if len(n.args) == 2:
-                    d = ast.literal_eval(n.args[1])
-                    if isinstance(d, dict) and len(d) == 0:
-                        return n.args[0]
-            return n
+    def _is_empty_metadata(n: ast.AST) -> bool:
+        if not (isinstance(n, ast.Call) and isinstance(n.func, ast.Name)):
+            return False
+        if n.func.id != "MetaData" or len(n.args) != 2:
+            return False
+        d = ast.literal_eval(n.args[1])
+        return isinstance(d, dict) and len(d) == 0
 
-    return _cleaner().visit(a)
+    def _clean(n: Any) -> Any:
+        "Return `n` itself if nothing below it changes, otherwise a shallow copy with the changes"
+        if isinstance(n, list):
+            new_list = [_clean(i) for i in n]
+            return new_list if any(a is not b for a, b in zip(new_list, n)) else n
+        if not isinstance(n, ast.AST):
+            return n
+        if _is_empty_metadata(n):
+            return _clean(n.args[0])  # type: ignore
+        changes = {}
+        for name, value in ast.iter_fields(n):
+            new_value = _clean(value)
+            if new_value is not value:
+                changes[name] = new_value
+        if len(changes) == 0:
+            return n
+        # Copy only the spine above a removed wrapper. `copy.copy` keeps attributes that are
+        # not ast fields (executor and dataset references) on the copied node.
+        new_n = copy.copy(n)
+        for name, value in changes.items():
+            setattr(new_n, name, value)
+        return new_n
+
+    return _clean(a)
 
 
 def lookup_query_metadata(q: ObjectStream, metadata_name: str) -> Optional[Any]:
